@@ -252,8 +252,9 @@ UniProg(xs, b, c) ==
      [] c = "collect" -> <<Set("it", CallE(V("mkit"), <<Hide(WBool, B(b))>>)), CollectE(V("it"))>>
      [] c = "for" -> <<Set("it", CallE(V("mkit"), <<Hide(WBool, B(b))>>)), For("e", V("it"), Block(<<Mark(300)>>)), I(0)>>)
 UniSeq == SetToSeq({<<xs, b, c>> : xs \in {<<1, 2, 3>>, <<0, 1>>, <<3>>, <<2, 2>>}, b \in BOOLEAN, c \in UniCons}
-                   \* the array is empty at run time and the int branch is taken: the sum of no ints is the int 0
-                   \cup {<< <<>>, FALSE, c>> : c \in {"sum", "sum-direct", "collect", "for"}})
+                   \* the array is empty at run time: the sum of no ints is the int 0, the sum of no floats (the mapped
+                   \* iterator declares float elements) is the float 0.0
+                   \cup {<< <<>>, b, c>> : b \in BOOLEAN, c \in {"sum", "sum-direct", "collect", "for"}})
 UniOut(i) == Outcome(Run(UniProg(UniSeq[i][1], UniSeq[i][2], UniSeq[i][3]), Fuel))
 RECURSIVE SumSeq(_)
 SumSeq(xs) == IF xs = <<>> THEN 0 ELSE Head(xs) + SumSeq(Tail(xs))
@@ -266,6 +267,39 @@ UniLaw == \A i \in 1..Len(UniSeq) :
   \/ (o.status = "value" /\ ValEq(o.v, want)
        /\ (c # "for" => o.log = applied) /\ (c = "for" => Len(o.log) = Len(applied) + Len(xs)))
   \/ (PrintT(<<"UNILAW", UniSeq[i], o>>) /\ FALSE)
+
+\* ... and the iterator that arrives yields NOTHING although its elements are floats / strings (everything filtered out,
+\* or already consumed by an earlier reduction): the sum is the neutral element of the DECLARED element type
+\* (0.0, "", 1.0 for the product), not the int one
+IterIFS == WMulti(<<WFn(<<>>, WTup(<<WBool, WInt>>)), WFn(<<>>, WTup(<<WBool, WFloat>>)), WFn(<<>>, WTup(<<WBool, WStr>>))>>)
+UEPrelude(ity) == <<
+  Set("data", Hide(WArr(WInt), ArrE(<<I(1), I(2)>>))),
+  Set("fdata", Hide(WArr(WFloat), ArrE(<<F(3), F(4)>>))),
+  Set("sdata", Hide(WArr(WStr), ArrE(<<S(<<97>>)>>))),
+  FnDecl("big", <<P("x", WFloat)>>, WBool, <<Ret(Bin(">", V("x"), F(20)))>>),
+  FnDecl("nos", <<P("x", WStr)>>, WBool, <<Ret(Bin("==", V("x"), S(<<>>)))>>),
+  FnDecl("mk3", <<P("k", WInt)>>, ity,
+         <<If1(Bin("==", V("k"), I(1)), Ret(FilterE(IterE(V("fdata")), V("big"))))>> \o
+         (IF ity = IterIFS THEN <<If1(Bin("==", V("k"), I(2)), Ret(FilterE(IterE(V("sdata")), V("nos"))))>> ELSE <<>>) \o
+         <<Ret(IterE(V("data")))>>)>>
+UEProg(k, c) ==
+  CASE c = "sum" -> UEPrelude(IterIFS) \o <<RedE("$+", "dyn", CallE(V("mk3"), <<Hide(WInt, I(k))>>))>>
+    [] c = "prod" -> UEPrelude(IterIF) \o <<RedE("$*", "dyn", CallE(V("mk3"), <<Hide(WInt, I(k))>>))>>
+    [] c = "sum-twice" -> UEPrelude(IterIFS) \o <<Set("it", CallE(V("mk3"), <<Hide(WInt, I(k))>>)), Set("a", RedE("$+", "dyn", V("it"))),
+                                                  Set("b", RedE("$+", "dyn", V("it"))), TupE(<<V("a"), V("b")>>)>>
+    [] c = "consumed-map" -> UEPrelude(IterIF) \o <<FnDecl("half", <<P("x", WInt)>>, WFloat, <<Ret(At(Halves, V("x")))>>),
+                                                   FnDecl("mk", <<P("b", WBool)>>, IterIF, <<If1(V("b"), Ret(MapE(IterE(V("data")), V("half")))), Ret(IterE(V("data")))>>),
+                                                   Set("it", CallE(V("mk"), <<Hide(WBool, B(TRUE))>>)), Set("a", CollectE(V("it"))),
+                                                   TupE(<<RedE("$+", "dyn", V("it")), RedE("$*", "dyn", V("it"))>>)>>
+UESeq == << <<0, "sum", IntV(3)>>, <<1, "sum", FloatV(0)>>, <<2, "sum", StrV(<<>>)>>,
+            <<0, "prod", IntV(2)>>, <<1, "prod", FloatV(2)>>,
+            <<0, "sum-twice", TupV(<<IntV(3), IntV(0)>>)>>, <<1, "sum-twice", TupV(<<FloatV(0), FloatV(0)>>)>>,
+            <<2, "sum-twice", TupV(<<StrV(<<>>), StrV(<<>>)>>)>>,
+            <<0, "consumed-map", TupV(<<FloatV(0), FloatV(2)>>)>> >>
+UEOut(i) == Outcome(Run(UEProg(UESeq[i][1], UESeq[i][2]), Fuel))
+UELaw == \A i \in 1..Len(UESeq) :
+  \/ (UEOut(i).status = "value" /\ UEOut(i).v = UESeq[i][3])
+  \/ (PrintT(<<"UELAW", UESeq[i], UEOut(i)>>) /\ FALSE)
 
 \* ---------------------------------------------------------------- callbacks that FAIL on one element
 \* pz(x) = 8 / x > 2 (fails on 0), fz(x) = 8 / x, gz(a, x) = a + 8 / x; log 600 + x before the division.  The error of a
@@ -294,12 +328,14 @@ ErrLaw == \A i \in 1..Len(ErrSeq) :
 
 Emit ==
   /\ TLCGet("stats").distinct > 0
-  /\ UniLaw /\ ErrLaw
+  /\ UniLaw /\ ErrLaw /\ UELaw
   /\ ndJsonSerialize(IOEnv.VERIF_OUT \o "/c11_cases.ndjson",
         [i \in 1..N |-> [id |-> "c11-" \o ToString(i), suite |-> "c11", prog |-> Prog(CaseSeq[i]), exp |-> Out(i)]]
         \o [i \in 1..Len(UniSeq) |-> [id |-> "c11-union-iter-" \o ToString(i), suite |-> "c11",
                                       prog |-> UniProg(UniSeq[i][1], UniSeq[i][2], UniSeq[i][3]), exp |-> UniOut(i)]]
         \o [i \in 1..Len(ErrSeq) |-> [id |-> "c11-failing-callback-" \o ToString(i), suite |-> "c11",
-                                      prog |-> ErrProg(ErrSeq[i][1], ErrSeq[i][2]), exp |-> ErrOut(i)]])
+                                      prog |-> ErrProg(ErrSeq[i][1], ErrSeq[i][2]), exp |-> ErrOut(i)]]
+        \o [i \in 1..Len(UESeq) |-> [id |-> "c11-union-iter-empty-" \o ToString(i), suite |-> "c11",
+                                     prog |-> UEProg(UESeq[i][1], UESeq[i][2]), exp |-> UEOut(i)]])
   /\ PrintT(<<"CASES", N, Len(CaseSeq0)>>)
 =============================================================================
